@@ -60,12 +60,21 @@ def _harness_ok(res):
         raise runner.Inconclusive("driver reported a harness error: %s" % json.dumps(res)[:400])
 
 
+class ValidModelDoesNotBuild(Exception):
+    pass
+
+
 def _check_alphabet(info):
     if len(info) != len(ALPHABET):
         raise runner.Inconclusive("driver saw %d models, expected %d" % (len(info), len(ALPHABET)))
     for m, i in zip(ALPHABET, info):
         if (i["ns"], i["name"]) != m.key:
             raise runner.Inconclusive("model %s parsed as %s/%s" % (m.id, i["ns"], i["name"]))
+        if m.builds and not i["builds"]:
+            # a well-formed model of the alphabet (it builds on the pinned tree; nothing in DMN forbids what it contains) is
+            # rejected by ModelEvaluator::new: deploy keeps it out silently, so "evaluation is possible for the models present at
+            # the last deploy" fails for a valid model. Reported, not folded into "inconclusive".
+            raise ValidModelDoesNotBuild("model %s (namespace %s, name %s: %s) is well-formed but does not build: %s" % (m.id, m.key[0], m.key[1], m.xml[:600], i.get("build_err")))
         if bool(i["builds"]) != m.builds:
             raise runner.Inconclusive("precondition on the alphabet broken: model %s builds=%s (%s), the workload needs builds=%s" % (m.id, i["builds"], i.get("build_err"), m.builds))
 
@@ -336,7 +345,12 @@ def run(rep, tier, seed):
         if _died(rep, res, "workspace-" + kind, case):
             continue
         if not checked_alphabet:
-            _check_alphabet(res["models"])
+            try:
+                _check_alphabet(res["models"])
+            except ValidModelDoesNotBuild as e:
+                rep.count(len(ALPHABET))
+                rep.violation("valid-model-of-the-alphabet-does-not-build", str(e), {"variant": "dbg", "case": case})
+                return
             checked_alphabet = True
         if kind == "bfs":
             bfs_trans = check_bfs(ctx, res, ops_full)
